@@ -12,6 +12,7 @@
 import ASV.Proofs.IdsMain
 import ASV.Proofs.IdsGenes
 import ASV.Proofs.IdsOptions
+import ASV.Proofs.IdsScan
 namespace ASV.C16
 open ASV ASV.Ids ASV.Generated.Ids
 
@@ -253,6 +254,37 @@ theorem has_name_answers_to_input_id (allowLong : Bool) (inp : List (Str × Str 
     List.Forall₂ (fun p r => hasName r p.1 = true ∧ ∀ t, hasName r t = true → t = r.id ∨ t = p.1) inp recs :=
   (preProcessIds_post h).remembers.imp fun _ _ hr => hasName_of_remembers hr
 
+/-! ### the counter is the least free one; the regex scanners against the patterns' declarative meaning -/
+
+/-- `generate_unique_id` returns the LEAST counter from `start` on whose name is free: every
+    smaller candidate is taken (so the result is fully determined by the inputs) -/
+theorem unique_id_least (pre : Str) (taken : List Str) (start : Nat) (maxLength : Int) (n : Str) (k : Nat)
+    (h : generateUniqueId pre taken start maxLength = .ok (n, k)) :
+    start ≤ k ∧ ∀ j, start ≤ j → j < k → mkName pre j ∈ taken :=
+  generateUniqueId_least h
+
+/-- `(\d+)\b`: the scanner returns `ds` exactly when `ds` is a match in the declarative
+    (backtracking) sense — a non-empty digit prefix followed by a word boundary; hence the match is
+    unique and nothing can succeed by backtracking where the greedy run fails -/
+theorem regex_digits_boundary_exact (s ds : Str) : digitsThenBoundary s = some ds ↔ MatchDigitsB s ds :=
+  digitsThenBoundary_iff s ds
+
+/-- `onti?g?(\d+)\b` anchored: scanner = declarative meaning with both optional letters free to be
+    skipped or taken -/
+theorem regex_contig_exact (s ds : Str) : matchContigAt s = some ds ↔ MatchContig s ds :=
+  matchContigAt_iff s ds
+
+/-- `caff?o?l?d?(\d+)\b` anchored: likewise, four optional letters -/
+theorem regex_scaffold_exact (s ds : Str) : matchScaffoldAt s = some ds ↔ MatchScaffold s ds :=
+  matchScaffoldAt_iff s ds
+
+/-- `re.search`: the scanner loop returns the match at the leftmost start position that has one -/
+theorem regex_search_leftmost (m : Str → Option Str) (r s : Str) :
+    searchFrom m s = some r ↔
+    ∃ pre suf, s = pre ++ suf ∧ m suf = some r ∧
+      ∀ pre' suf', s = pre' ++ suf' → pre'.length < pre.length → m suf' = none :=
+  searchFrom_iff m r s
+
 /-- the regenerated illegal-character tables still contain every character they contained when
     the property was written (path separator, blank, shell/GenBank metacharacters; for gene ids
     also tab / newline / carriage return): shrinking a table breaks this obligation -/
@@ -306,6 +338,16 @@ example : (preProcess { skip := true, limitTo := "a".toList } [("a".toList, [], 
     some [false, false] := by decide
 example : (match preProcess { limitTo := "a:b".toList } [("a:b".toList, [], none)] with
            | .error .noMatch => true | _ => false) = true := by decide
+/-- the declarative matches exist: `ontig12.x` matches with the `i` and `g` taken, `ont7` with both skipped,
+    `cafold3-` with `f` and `l` skipped; `ontig12x` has no match (no boundary after the digits) -/
+example : MatchContig "ontig12.x".toList "12".toList := (matchContigAt_iff _ _).mp (by decide)
+example : MatchContig "ont7".toList "7".toList := (matchContigAt_iff _ _).mp (by decide)
+example : MatchScaffold "cafod3-".toList "3".toList := (matchScaffoldAt_iff _ _).mp (by decide)
+example : ¬ ∃ ds, MatchContig "ontig12x".toList ds := fun ⟨ds, h⟩ => by
+  have := (matchContigAt_iff _ _).mpr h
+  have hn : matchContigAt "ontig12x".toList = none := by decide
+  rw [hn] at this
+  exact absurd this (by simp)
 /-- D60 witness: the generated name is already there → input error `dupName` (used to be a bare `assert`) -/
 example : (match addCds (runOps {} [.cds (.simple ⟨100, 130, .fwd⟩) (some "geneX_e50adf46".toList) none none,
                                     .cds (.simple ⟨10, 40, .fwd⟩) (some "geneX".toList) none none])
